@@ -22,8 +22,16 @@ Inductive oev :=
 | EAuth (u t : string) (ans : bool).
 
 Record ccase := { cc_accept : list (string * string);     (* the authenticator's table (hex) *)
+                  cc_perconn : bool;
                   cc_script : list action;
                   cc_obs : list (list oev * list oev * list oev) }.
+   (* cc_perconn = false: the harness owns the streams and sees every Write and Close of the server
+      when it happens.  cc_perconn = true: the server listens on a transport of bus/net (unix://,
+      tcp://, tcps://, pipe://) and the connections were dialled; what the server writes reaches
+      the harness through one socket per connection, so the order of two events is observed only
+      when they concern the same connection (and, for the authenticator calls, among these).
+      The model has no notion of transport: a connection accepted from any listener is a fresh
+      connection name. *)
    (* per action, each in order of occurrence: what the reader and consumer goroutines of the
       connections did, what service 0's mailbox goroutine did, probe invocations.  The order
       between two goroutines (a barrier answer against an authenticate reply) is a race in the
@@ -151,6 +159,19 @@ Fixpoint evs_match (os : list out) (es : list oev) : bool :=
   | _, _ => false
   end.
 
+(* one observation channel per connection, one for the authenticator *)
+Definition oev_conn (e : oev) : option N :=
+  match e with EFrame c _ _ _ _ _ _ => Some c | EClose c => Some c | EInvoke c _ _ _ _ _ _ => Some c | EAuth _ _ _ => None end.
+Definition on_conn_o (c : option nat) (o : out) : bool :=
+  match out_conn o, c with Some a, Some b => Nat.eqb a b | None, None => true | _, _ => false end.
+Definition on_conn_e (c : option nat) (e : oev) : bool :=
+  match oev_conn e, c with Some a, Some b => N.of_nat b =? a | None, None => true | _, _ => false end.
+Definition seq_match (perconn : bool) (cs : list nat) (os : list out) (es : list oev) : bool :=
+  if perconn then
+    Nat.eqb (List.length os) (List.length es)
+    && forallb (fun c => evs_match (filter (on_conn_o c) os) (filter (on_conn_e c) es)) (None :: map Some cs)
+  else evs_match os es.
+
 Definition is_deliver (o : out) : bool := match o with ODeliver _ _ => true | _ => false end.
 (* a delivery is seen by the harness when the addressed object is one of its probes *)
 Definition is_invoke (o : out) : bool :=
@@ -174,20 +195,21 @@ Definition out_svc (o : out) : N := match o with ODeliver _ f => f_svc f | _ => 
 Definition inv_match (s : N) (m : list out) (inv : list oev) : bool :=
   evs_match (filter (fun o => is_invoke o && (out_svc o =? s)) m) (filter (fun e => oev_svc e =? s) inv).
 
-Fixpoint steps_match (ms : list (list out)) (obs : list (list oev * list oev * list oev)) : bool :=
+Fixpoint steps_match (pc : bool) (cs : list nat) (ms : list (list out)) (obs : list (list oev * list oev * list oev)) : bool :=
   match ms, obs with
   | [], [] => true
   | m :: ms', (es, mb, inv) :: obs' =>
-      evs_match (filter (fun o => negb (is_deliver o) && negb (is_mbox o)) m) es
-      && evs_match (filter is_mbox m) mb
+      seq_match pc cs (filter (fun o => negb (is_deliver o) && negb (is_mbox o)) m) es
+      && seq_match pc cs (filter is_mbox m) mb
       && inv_match 1 m inv && inv_match 2 m inv
       && Nat.eqb (List.length (filter is_invoke m)) (List.length inv)
-      && steps_match ms' obs'
+      && steps_match pc cs ms' obs'
   | _, _ => false
   end.
 
 Definition ccase_ok (c : ccase) : bool :=
-  steps_match (run_script (cc_accept c) 0 false (script_conns (cc_script c)) init (cc_script c)) (cc_obs c).
+  let cs := script_conns (cc_script c) in
+  steps_match (cc_perconn c) cs (run_script (cc_accept c) 0 false cs init (cc_script c)) (cc_obs c).
 
 Fixpoint bad_idx {A} (f : A -> bool) (l : list A) (i : nat) : list nat :=
   match l with
